@@ -49,6 +49,7 @@ inductive Q
   | gate (id : Nat) (n : Int)
   | hdr (id : Nat) (n : Int)
   | burst (id : Nat) (n : Int)
+  | burstFresh (id : Nat) (n : Int)
   | mtp (n : Int)
   | clock (id : Nat) (n : Int)
   | gateExp (id : Nat) (n : Int) (mempool : Bool)
@@ -72,6 +73,7 @@ def parseQuery? (s : String) : Option Q :=
       else if kind == "h" then some (.clock a n)
       else if kind == "H" then some (.hdr a n)
       else if kind == "P" then some (.burst a n)
+      else if kind == "F" then some (.burstFresh a n)
       else if kind == "g" then some (.gate a n)
       else if kind == "G" then some (.gateExp a n false)
       else if kind == "M" then some (.gateExp a n true)
@@ -146,6 +148,18 @@ def runQuery (cx : Ctx) (q : Q) : Ctx × String :=
     match nodeAt cx n with
     | some [_] => (cx, "err")
     | some nd => (cx, toString (Spec.mtp nd))
+    | none => (cx, "bad-op")
+  | .burstFresh id n =>
+    -- 12 concurrent calls on a fresh instance (k mod 3: state / active / version); this instance's
+    -- caches are not touched
+    match nodeAt cx n with
+    | some nd =>
+      let fx : Ctx := { cx with inst := Warn.freshInst (cx.inst.cs.map (·.1)) }
+      let (f1, s) := ask fx (.dep (.state id nd)) false
+      let (f2, a) := ask f1 (.dep (.state id nd)) true
+      let (_, v) := ask f2 (.dep (.version nd)) false
+      let toks := (List.range 12).map fun k => if k % 3 == 0 then s else if k % 3 == 1 then a else v
+      (cx, if toks.contains "panic" then "panic" else "/".intercalate toks)
     | none => (cx, "bad-op")
   | .burst id n =>
     -- 2× ThresholdState, 2× IsDeploymentActive, 2× CalcNextBlockVersion, concurrently on one tip:
